@@ -16,7 +16,11 @@ package c01
 import (
 	"bytes"
 	"context"
+	"crypto/ecdsa"
+	"crypto/rand"
+	"crypto/sha256"
 	"crypto/x509"
+	"encoding/base64"
 	"encoding/json"
 	"errors"
 	"fmt"
@@ -26,6 +30,7 @@ import (
 	"testing/iotest"
 	"time"
 
+	"github.com/fxamacker/cbor/v2"
 	"github.com/notaryproject/notation-core-go/signature"
 	_ "github.com/notaryproject/notation-core-go/signature/cose"
 	_ "github.com/notaryproject/notation-core-go/signature/jws"
@@ -99,7 +104,7 @@ func facts(env []byte, format string) (parseOk, integrityOk, typeOk bool, decode
 	}
 	integrityOk = true
 	content = c
-	typeOk = c.Payload.ContentType == envelope.MediaTypePayloadV1
+	typeOk = c.Payload.ContentType == common.PayloadTypeV1 // the literal of the specification, not the tree's constant
 	var p envelope.Payload
 	if json.Unmarshal(c.Payload.Content, &p) == nil {
 		d := toDesc(p.TargetArtifact)
@@ -225,6 +230,262 @@ func artifactVariants(d ocispec.Descriptor) []ocispec.Descriptor {
 	return []ocispec.Descriptor{a, b, c, e}
 }
 
+// ---- hand-assembled envelopes: the payload content type header ----
+
+// resignJWS takes a JWS signed by notation-core-go, lets edit rewrite the members of its PROTECTED header (edit
+// returns the raw JSON of the new header, so that it may contain duplicate members) and signs header and payload
+// again with the leaf key (ES256, r||s): a cryptographically valid envelope that core itself would never emit.
+// unprotected, when not nil, is merged into the unprotected header.
+func resignJWS(ch *common.Chain, env []byte, edit func(map[string]json.RawMessage) []byte, unprotected map[string]string) ([]byte, error) {
+	key, ok := ch.Leaf().Key.(*ecdsa.PrivateKey)
+	if !ok {
+		return nil, errors.New("resignJWS: the leaf key is not ECDSA")
+	}
+	var parts map[string]json.RawMessage
+	if err := json.Unmarshal(env, &parts); err != nil {
+		return nil, err
+	}
+	var encProtected, encPayload string
+	if json.Unmarshal(parts["protected"], &encProtected) != nil || json.Unmarshal(parts["payload"], &encPayload) != nil {
+		return nil, errors.New("resignJWS: not a flattened JWS")
+	}
+	raw, err := base64.RawURLEncoding.DecodeString(encProtected)
+	if err != nil {
+		return nil, err
+	}
+	var members map[string]json.RawMessage
+	if err := json.Unmarshal(raw, &members); err != nil {
+		return nil, err
+	}
+	encProtected = base64.RawURLEncoding.EncodeToString(edit(members))
+	sum := sha256.Sum256([]byte(encProtected + "." + encPayload))
+	r, sg, err := ecdsa.Sign(rand.Reader, key, sum[:])
+	if err != nil {
+		return nil, err
+	}
+	sig := make([]byte, 64)
+	r.FillBytes(sig[:32])
+	sg.FillBytes(sig[32:])
+	parts["protected"], _ = json.Marshal(encProtected)
+	parts["signature"], _ = json.Marshal(base64.RawURLEncoding.EncodeToString(sig))
+	if unprotected != nil {
+		var h map[string]json.RawMessage
+		if err := json.Unmarshal(parts["header"], &h); err != nil {
+			return nil, err
+		}
+		for k, v := range unprotected {
+			h[k], _ = json.Marshal(v)
+		}
+		parts["header"], _ = json.Marshal(h)
+	}
+	return json.Marshal(parts)
+}
+
+func marshalMembers(m map[string]json.RawMessage) []byte {
+	b, _ := json.Marshal(m)
+	return b
+}
+
+// with an extra raw member written in front of / behind the others (duplicates possible)
+func withRawMember(m map[string]json.RawMessage, member string, front bool) []byte {
+	b := marshalMembers(m)
+	if front {
+		return []byte("{" + member + "," + string(b[1:]))
+	}
+	return []byte(string(b[:len(b)-1]) + "," + member + "}")
+}
+
+type ctyCase struct {
+	label       string
+	edit        func(map[string]json.RawMessage) []byte
+	unprotected map[string]string
+}
+
+// the ways a validly signed JWS can declare - or fail to declare - its payload content type
+func jwsCtyCases() []ctyCase {
+	const n = common.PayloadTypeV1
+	set := func(v string) func(map[string]json.RawMessage) []byte {
+		return func(m map[string]json.RawMessage) []byte {
+			m["cty"], _ = json.Marshal(v)
+			return marshalMembers(m)
+		}
+	}
+	raw := func(v string) func(map[string]json.RawMessage) []byte {
+		return func(m map[string]json.RawMessage) []byte {
+			m["cty"] = json.RawMessage(v)
+			return marshalMembers(m)
+		}
+	}
+	absent := func(m map[string]json.RawMessage) []byte {
+		delete(m, "cty")
+		return marshalMembers(m)
+	}
+	q := func(s string) string { b, _ := json.Marshal(s); return string(b) }
+	return []ctyCase{
+		{"exact (hand-assembled)", set(n), nil},
+		{"absent", absent, nil},
+		{"empty", set(""), nil},
+		{"null", raw("null"), nil},
+		{"number", raw("50"), nil},
+		{"array", raw("[" + q(n) + "]"), nil},
+		{"upper-case", set(strings.ToUpper(n)), nil},
+		{"title-case", set("Application/vnd.cncf.notary.payload.v1+json"), nil},
+		{"leading-space", set(" " + n), nil},
+		{"trailing-space", set(n + " "), nil},
+		{"trailing-newline", set(n + "\n"), nil},
+		{"charset-parameter", set(n + "; charset=utf-8"), nil},
+		{"trailing-semicolon", set(n + ";"), nil},
+		{"without-application/", set("vnd.cncf.notary.payload.v1+json"), nil},
+		{"json", set("application/json"), nil},
+		{"only-in-unprotected-header", absent, map[string]string{"cty": n}},
+		{"empty-and-in-unprotected-header", set(""), map[string]string{"cty": n}},
+		{"member-name-CTY", func(m map[string]json.RawMessage) []byte {
+			delete(m, "cty")
+			return withRawMember(m, `"CTY":`+q(n), false)
+		}, nil},
+		{"duplicate-last-notary", func(m map[string]json.RawMessage) []byte {
+			delete(m, "cty")
+			b := withRawMember(m, `"cty":"application/json"`, true)
+			return []byte(string(b[:len(b)-1]) + `,"cty":` + q(n) + "}")
+		}, nil},
+		{"duplicate-last-empty", func(m map[string]json.RawMessage) []byte {
+			m["cty"], _ = json.Marshal(n)
+			return withRawMember(m, `"cty":""`, false)
+		}, nil},
+	}
+}
+
+// resignCOSE does the same for a COSE_Sign1 envelope, at the level of CBOR items (every other header keeps the exact
+// encoding core gave it): edit rewrites the protected header map, then Sig_structure ["Signature1", protected, h”,
+// payload] is signed again with the leaf key (ES256, r||s)
+func resignCOSE(ch *common.Chain, env []byte, edit func(map[any]cbor.RawMessage)) ([]byte, error) {
+	key, ok := ch.Leaf().Key.(*ecdsa.PrivateKey)
+	if !ok {
+		return nil, errors.New("resignCOSE: the leaf key is not ECDSA")
+	}
+	em, err := cbor.CoreDetEncOptions().EncMode()
+	if err != nil {
+		return nil, err
+	}
+	var tagged cbor.RawTag
+	if err := cbor.Unmarshal(env, &tagged); err != nil {
+		return nil, err
+	}
+	var arr []cbor.RawMessage
+	if err := cbor.Unmarshal(tagged.Content, &arr); err != nil || len(arr) != 4 {
+		return nil, fmt.Errorf("resignCOSE: not a COSE_Sign1 array: %v", err)
+	}
+	var protected, payload []byte
+	if err := cbor.Unmarshal(arr[0], &protected); err != nil {
+		return nil, err
+	}
+	if err := cbor.Unmarshal(arr[2], &payload); err != nil {
+		return nil, err
+	}
+	var header map[any]cbor.RawMessage
+	if err := cbor.Unmarshal(protected, &header); err != nil {
+		return nil, err
+	}
+	edit(header)
+	if protected, err = em.Marshal(header); err != nil {
+		return nil, err
+	}
+	toSign, err := em.Marshal([]any{"Signature1", protected, []byte{}, payload})
+	if err != nil {
+		return nil, err
+	}
+	sum := sha256.Sum256(toSign)
+	r, sg, err := ecdsa.Sign(rand.Reader, key, sum[:])
+	if err != nil {
+		return nil, err
+	}
+	sig := make([]byte, 64)
+	r.FillBytes(sig[:32])
+	sg.FillBytes(sig[32:])
+	arr[0], _ = em.Marshal(protected)
+	arr[3], _ = em.Marshal(sig)
+	content, err := em.Marshal(arr)
+	if err != nil {
+		return nil, err
+	}
+	return em.Marshal(cbor.RawTag{Number: tagged.Number, Content: content})
+}
+
+type coseCtyCase struct {
+	label string
+	edit  func(map[any]cbor.RawMessage)
+}
+
+func coseCtyCases() []coseCtyCase {
+	const n = common.PayloadTypeV1
+	const label = uint64(3) // COSE header parameter "content type"
+	set := func(v any) func(map[any]cbor.RawMessage) {
+		return func(h map[any]cbor.RawMessage) {
+			b, err := cbor.Marshal(v)
+			if err != nil {
+				panic(err)
+			}
+			h[label] = b
+		}
+	}
+	return []coseCtyCase{
+		{"exact (hand-assembled)", set(n)},
+		{"absent", func(h map[any]cbor.RawMessage) { delete(h, label) }},
+		{"empty", set("")},
+		{"coap-content-format-number", set(uint64(50))},
+		{"byte-string", set([]byte(n))},
+		{"upper-case", set(strings.ToUpper(n))},
+		{"leading-space", set(" " + n)},
+		{"trailing-space", set(n + " ")},
+		{"charset-parameter", set(n + "; charset=utf-8")},
+		{"json", set("application/json")},
+		{"text-label-cty-instead-of-3", func(h map[any]cbor.RawMessage) {
+			// the text label "cty" instead of the integer label 3
+			b, _ := cbor.Marshal(n)
+			delete(h, label)
+			h["cty"] = b
+		}},
+	}
+}
+
+// headerEnvelopes: validly signed envelopes (by the main chain, for target d) for every content type case, with and
+// without the verification-plugin attribute
+func (w *world) headerEnvelopes(c *common.Ctx, d ocispec.Descriptor) []envCase {
+	var out []envCase
+	pattrs := []signature.Attribute{{Key: verifier.HeaderVerificationPlugin, Critical: true, Value: c01Plugin}}
+	for _, plugin := range []bool{false, true} {
+		prefix, eo := "header/cty ", common.EnvOpts{Chain: w.chain, Target: &d}
+		if plugin {
+			prefix, eo.ExtAttrs = "plugin/header/cty ", pattrs
+		}
+		eo.Format = common.MediaJWS
+		base := common.MustSign(eo)
+		for _, cc := range jwsCtyCases() {
+			if plugin && cc.label != "absent" && cc.label != "empty" && cc.label != "exact (hand-assembled)" {
+				continue
+			}
+			b, err := resignJWS(w.chain, base, cc.edit, cc.unprotected)
+			if err != nil {
+				panic(fmt.Sprintf("c01: hand-assembled JWS %q: %v", cc.label, err))
+			}
+			out = append(out, envCase{prefix + cc.label, common.MediaJWS, b, "", plugin})
+		}
+		eo.Format = common.MediaCOSE
+		base = common.MustSign(eo)
+		for _, cc := range coseCtyCases() {
+			if plugin && cc.label != "absent" && cc.label != "empty" && cc.label != "exact (hand-assembled)" {
+				continue
+			}
+			b, err := resignCOSE(w.chain, base, cc.edit)
+			if err != nil {
+				panic(fmt.Sprintf("c01: hand-assembled COSE %q: %v", cc.label, err))
+			}
+			out = append(out, envCase{prefix + cc.label, common.MediaCOSE, b, "", plugin})
+		}
+	}
+	return out
+}
+
 // envelopes builds the envelope pool for a base descriptor.
 func (w *world) envelopes(c *common.Ctx, d ocispec.Descriptor, content []byte) []envCase {
 	var out []envCase
@@ -334,6 +595,8 @@ func (w *world) envelopes(c *common.Ctx, d ocispec.Descriptor, content []byte) [
 			out = append(out, envCase{"plugin/payload/" + name, common.MediaCOSE, b, "", true})
 		}
 	}
+	// hand-assembled, validly signed envelopes that declare their payload content type in every odd way, or not at all
+	out = append(out, w.headerEnvelopes(c, d)...)
 	// byte mutations of valid envelopes
 	nm := 60
 	if c.Thorough() {
@@ -1030,11 +1293,18 @@ func Run(c *common.Ctx) error {
 		c.Count("envelope=" + e.label)
 		c.Count(fmt.Sprintf("kind=%s accepted=%v", in.Kind, o.Accepted))
 		c.Count(fmt.Sprintf("integrity=%v", in.IntegrityOk))
+		if strings.Contains(e.label, "header/cty ") && !in.Skip && in.Rest {
+			f := "JWS"
+			if e.format == common.MediaCOSE {
+				f = "COSE"
+			}
+			c.Count(fmt.Sprintf("%s %s: parses=%v integrity=%v notaryType=%v accepted=%v", f, e.label, in.ParseOk, in.IntegrityOk, in.PayloadTypeOk, o.Accepted))
+		}
 	}
 	// the variants that name a digest in another way are one more digest mismatch for the base cross: they
 	// matter in the registry dimension
 	lean := func(e envCase) bool {
-		return e.label == "mutated" || strings.HasPrefix(e.label, "fresh/same-content-") || strings.HasPrefix(e.label, "fresh/other-content-") ||
+		return e.label == "mutated" || strings.Contains(e.label, "header/cty ") || strings.HasPrefix(e.label, "fresh/same-content-") || strings.HasPrefix(e.label, "fresh/other-content-") ||
 			e.label == "fresh/same-hex-as-sha512" || e.label == "fresh/empty-digest"
 	}
 	// OCI
